@@ -215,10 +215,10 @@ def train_bandits(
                 # Save experience to replay buffer
                 transition = TensorDict(
                     {
-                        "obs": context,
+                        "obs": context[action],
                         "reward": reward,
                     }
-                )
+                ).float()
                 transition = transition.unsqueeze(0)
                 transition.batch_size = [1]
                 memory.add(transition)
